@@ -53,9 +53,20 @@ def autorel(mode, nmod, persist, keep=1, st=1, udauto=0, leak=False):
     return l2_job(name, "l2/c07_autorelease.c", defines=d, symbolic=SYM_A, bounds=name, unwind=13, fp_extra=HOOK, leak=leak, timeout=TMO)
 
 
-def guard(g, bst=1, loop0=0):
-    name = "C07.guard.%s" % GNAMES[g] + (".b%d.l%d" % (bst, loop0) if g == 3 else "")
-    j = l2_job(name, "l2/c07_guards.c", defines={"G": g, "BST": bst, "LOOP0": loop0}, symbolic=SYM_G[g], bounds=name, unwind=13,
+def guard(g, bst=1, loop0=0, flfixed=None, short=False):
+    name = "C07.guard.%s" % GNAMES[g] + (".b%d.l%d" % (bst, loop0) if g == 3 else "") + (".fl%d" % flfixed if flfixed is not None else "") \
+           + (".short" if short else "")
+    d = {"G": g, "BST": bst, "LOOP0": loop0}
+    sym = SYM_G[g]
+    if short:
+        d["SHORT"] = None
+        sym = ["errno left by handlers (int)"]
+    if flfixed is not None:
+        # companion with the refused flag word concrete: a regression that lets the refused call through is then reported
+        # as a failure quickly instead of a time-out of the symbolic-flag job
+        d["FLFIXED"] = flfixed
+        sym = [x for x in sym if "flag word" not in x]
+    j = l2_job(name, "l2/c07_guards.c", defines=d, symbolic=sym, bounds=name, unwind=13,
                fp_extra=HOOK, task_fns=["my_task"], extra_evt=["other_evt"], timeout=TMO,
                unwindset={"vf_main.0": 66} if g == 5 else None)
     if g == 5:
@@ -137,6 +148,9 @@ def jobs(tier):
             js.append(j)
     for g, bst, loop0 in Gs:
         js.append(guard(g, bst, loop0))
+    js += [guard(0, flfixed=0), guard(2, flfixed=0), guard(3, short=True)]
+    if tier != "quick":
+        js += [guard(0, flfixed=1), guard(2, flfixed=1), guard(4, flfixed=5)]
     return js
 
 
